@@ -53,22 +53,29 @@ Construct ==
   /\ phase' = "run"
   /\ UNCHANGED <<st, viol, lastcase>>
 
-Insert(c) ==
-  /\ phase = "run" /\ Len(st.seq) < MaxLen
-  /\ \E s \in Alphabet :
-       LET o == AlgStep(Variant, G, base, st, s)
-           nx == [vec |-> o.nx.vec, rep |-> o.nx.rep, seq |-> Append(st.seq, s),
-                  rets |-> Append(st.rets, o.ret), sizes |-> Append(st.sizes, Len(o.nx.vec))] IN
-       /\ o.case = c
-       /\ st' = nx
-       /\ viol' = StepViolations(G, base, nx.seq, nx.rets, nx.sizes, Len(nx.seq))
-       /\ lastcase' = c
-  /\ UNCHANGED <<phase, base>>
+\* operator()(surface) on the current state: what the variant's algorithm does with s
+Call(s) == AlgStep(Variant, G, base, st, s)
+Commit(s, o) ==
+  LET nx == [vec |-> o.nx.vec, rep |-> o.nx.rep, seq |-> Append(st.seq, s),
+             rets |-> Append(st.rets, o.ret), sizes |-> Append(st.sizes, Len(o.nx.vec))] IN
+  /\ st' = nx
+  /\ viol' = StepViolations(G, base, nx.seq, nx.rets, nx.sizes, Len(nx.seq))
+  /\ lastcase' = o.case
+CanCall == phase = "run" /\ Len(st.seq) < MaxLen
 
-\* operator()(surface): the three documented cases
-InsertExact == Insert("exact")
-InsertNear == Insert("near")
-InsertUnique == Insert("unique")
+\* the three documented cases of the one public call
+InsertExact ==     \* exactly equal to a stored surface: nothing stored, its first id returned
+  /\ CanCall
+  /\ \E s \in Alphabet : Call(s).case = "exact" /\ Commit(s, Call(s))
+  /\ UNCHANGED <<phase, base>>
+InsertNear ==      \* soft-equal but identical to none: stored, the canonical id of the match returned
+  /\ CanCall
+  /\ \E s \in Alphabet : Call(s).case = "near" /\ Commit(s, Call(s))
+  /\ UNCHANGED <<phase, base>>
+InsertUnique ==    \* soft-equal to nothing stored: stored, fresh id
+  /\ CanCall
+  /\ \E s \in Alphabet : Call(s).case = "unique" /\ Commit(s, Call(s))
+  /\ UNCHANGED <<phase, base>>
 
 Next == Construct \/ InsertExact \/ InsertNear \/ InsertUnique
 Spec == Init /\ [][Next]_vars
